@@ -229,6 +229,33 @@ theorem compare_spec {n : Nat} {regs : Nat → List Nat} {s s' : St} (r : Reach 
   obtain ⟨rfl, ab⟩ := compareS_eq (reach_good r).inv (valid_facts hv).1 (valid_facts hw).1 e ha hb hza hzb
   exact ⟨ab, strcmp_eq_zero hza hzb, strcmp_neg hza hzb⟩
 
+/-- `compare(other, n)` compares the first `n` chars; `compareIgnoreCase` compares the ASCII-lowered values:
+    zero iff these are equal, negative iff lexicographically smaller -/
+theorem compareN_IC_spec {n : Nat} {regs : Nat → List Nat} {s : St} (r : Reach n regs s) {v w : Nat}
+    (hv : validVar s v = true) (hw : validVar s w = true) {a b : List Nat}
+    (ha : allSome (absVar s v) = some a) (hb : allSome (absVar s w) = some b)
+    (hza : ∀ x ∈ a, x ≠ 0) (hzb : ∀ x ∈ b, x ≠ 0) :
+    (∀ k s' res, compareN s v w k = some (s', res) →
+      (res = 0 ↔ a.take k = b.take k) ∧ (res < 0 ↔ a.take k < b.take k)) ∧
+    (∀ s' res, compareIC s v w = some (s', res) →
+      (res = 0 ↔ a.map toLower = b.map toLower) ∧ (res < 0 ↔ a.map toLower < b.map toLower)) := by
+  have g := (reach_good r).inv
+  have V := valid_facts hv
+  have W := valid_facts hw
+  constructor
+  · intro k s' res e
+    obtain ⟨rfl, _⟩ := compareN_eq g V.1 W.1 e ha hb hza hzb
+    have h1 : ∀ x ∈ a.take k, x ≠ 0 := fun x hx => hza x (List.mem_of_mem_take hx)
+    have h2 : ∀ x ∈ b.take k, x ≠ 0 := fun x hx => hzb x (List.mem_of_mem_take hx)
+    exact ⟨strcmp_eq_zero h1 h2, strcmp_neg h1 h2⟩
+  · intro s' res e
+    obtain ⟨rfl, _⟩ := compareIC_eq g V.1 W.1 e ha hb hza hzb
+    have h1 : ∀ x ∈ a.map toLower, x ≠ 0 := by
+      intro x hx; obtain ⟨y, hy, rfl⟩ := List.mem_map.mp hx; exact toLower_ne_zero (hza y hy)
+    have h2 : ∀ x ∈ b.map toLower, x ≠ 0 := by
+      intro x hx; obtain ⟨y, hy, rfl⟩ := List.mem_map.mp hx; exact toLower_ne_zero (hzb y hy)
+    exact ⟨strcmp_eq_zero h1 h2, strcmp_neg h1 h2⟩
+
 /-- the range `trim` keeps (as computed by the two scanning loops of the C++ code) is the value
     without its leading and trailing chars of the set -/
 theorem trim_spec (chars c : List Nat) :
